@@ -42,7 +42,7 @@ theorem tls_never_falls_back (s : CState) (evs : List CEv) (h : s.ssl = some tru
         simp only [cstep, getClient, h]
         split <;> simp [h]
       | stop => simp [cstep, h]
-      | connect ok =>
+      | connect res =>
         simp only [cstep, h, getClient]
         split <;> simp [h]
     obtain ⟨h1, h2⟩ := hstep
@@ -79,8 +79,8 @@ theorem consumer_optional_sticky (evs evs' : List CEv)
 
 /-- the only fall-back of the code: optional mode, first connect, handshake refused (a TLS client, then a plaintext one) -/
 theorem optional_may_fall_back :
-    (crun (CState.init .optional) [.connect false]).2 = [true, false] ∧
-    (crun (CState.init .optional) [.connect false]).1.ssl = some false := by decide
+    (crun (CState.init .optional) [.connect .sslError]).2 = [true, false] ∧
+    (crun (CState.init .optional) [.connect .sslError]).1.ssl = some false := by decide
 
 /-- without a container no TLS client is ever created, with `force_ssl_connect` only TLS clients: constructor table -/
 theorem generated_init_matches : ∀ e ∈ Generated.C19.initSslObserved, initSsl e.1 = e.2 := by decide
@@ -108,9 +108,9 @@ theorem no_plaintext_address_anywhere :
   decide +kernel
 
 /-! ### non-vacuity -/
-example : (crun (CState.init .enforced) [.connect true, .getClient 1, .stop, .connect false, .getClient 0]).2 = [true, true, true] := by
+example : (crun (CState.init .enforced) [.connect .ok, .getClient 1, .stop, .connect .sslError, .getClient 0]).2 = [true, true, true] := by
   decide
-example : (crun (CState.init .optional) [.connect true, .stop, .connect false]).2 = [true, true] := by decide
+example : (crun (CState.init .optional) [.connect .ok, .stop, .connect .otherError]).2 = [true, true] := by decide
 example : eventSinkAccepted ⟨true, .own, false, .enforced, .sharedTls, true⟩ (some true) = true := by decide
 
 end Sdc.C19
